@@ -25,7 +25,7 @@ CHECKS = {
         design="DESIGN.md §4 C02",
     ),
     "C03": dict(
-        rules="R03.1-R03.14 (+R20.1 bound via C20)",
+        rules="R03.1-R03.15 (+R20.1 bound via C20)",
         what="order of the re-processing pipeline in reprocess_nodes and of the propagation loop; type snapshots read every __eq__ field; component-coverage matrix of the astmerge / deps / astdiff type visitors; the follow-imports walk queues every module found changed (never filtered by the set the finder marks); every daemon check response computes its status by main()'s predicate; list/set twin fields of a build State are written together; `not in` generates the __contains__ dependency; a partial re-check regenerates the ignore-comment diagnostics a whole-module update produces (two known findings); MRO walks in the dependency visitor add the member dependency for every base visited; protocol-dependency filters test module names; Var flags that decide member-access diagnostics are in the Var snapshot",
         quant="edit histories checked after every step",
         technique="CFG must-pass-through ordering, sibling cross-check (__eq__ fields vs snapshot reads), component-coverage matrix",
@@ -97,7 +97,7 @@ CHECKS = {
         design="DESIGN.md §4 C09",
     ),
     "C10": dict(
-        rules="R10.1-R10.5",
+        rules="R10.1-R10.6",
         what="every iteration over a set in mypy/ is consumed order-insensitively (recognised structurally) or individually tabled; every hash()/id()/urandom/time call site classified; every process-global mutable binding reset on the build entry path or tabled; a once-per-build slot is claimed only by a message that is then recorded; a plugin given by path is not taken from sys.modules when that entry came from another file",
         quant="hash seeds, file orders and preceding builds",
         technique="type-directed lint over the resolved program (set-typed iterables by annotation-driven typing), effect classification of loop bodies, reaching reset analysis from build.build",
